@@ -30,7 +30,7 @@ META = {
 }
 
 KNOWN_PUSH0 = "venom-revert-postamble-push0-pre-shanghai"
-STATIC = ["C16/Asm.v", "C16/HexBytes.v", "C16/InstrBridge.v", "C16/LoopsPrelude.v", "C16/PushProofs.v", "C16/AsmProofs.v", "C16/DecodeProofs.v", "C16/EvmOpcodes.v"]
+STATIC = ["C16/Asm.v", "C16/HexBytes.v", "C16/InstrBridge.v", "C16/LoopsPrelude.v", "C16/PushProofs.v", "C16/AsmProofs.v", "C16/DecodeProofs.v", "C16/EvmOpcodes.v", "C16/Views.v", "C16/ViewsProofs.v"]
 
 
 # ------------------------------------------------------------------ real side helpers
@@ -432,6 +432,42 @@ def output_views(ctx, cases):
     return found
 
 
+def views_model(ctx, cases):
+    """exact comparison of the Coq printer models (Views.v) with the real `opcodes`, `asm` outputs and of the
+    model's source-map pcs with the real key sets.  Returns (#compared, mismatch descriptions)."""
+    from vyper.compiler import output as out
+    from vyper.compiler.settings import anchor_settings
+    from vlib import coqrun
+    rnd = ctx.rng("views")
+    pool = [c for c in cases if "cfg" in c and c.get("fresh")]
+    if ctx.tier == "quick":
+        small = [c for c in pool if len(c["code"]) < 5000]
+        pool = rnd.sample(small, min(36, len(small)))
+    exprs, used = [], []
+    for c in pool:
+        cd, rt = c["cd"], c["which"] == "assembly_runtime"
+        with anchor_settings(cd.settings):
+            opc = (out.build_opcodes_runtime_output if rt else out.build_opcodes_output)(cd)
+            atext = (out.build_asm_runtime_output if rt else out.build_asm_output)(cd)
+            smap = cd.source_map_runtime if rt else cd.source_map
+        try:
+            ia, ka, ie, ke, ij, kj = A.source_map_indices(c["asm"], smap)
+            exprs.append(A.views_expr(evm_index(c["evm"]), c["code"], c["term"], c["L"], c["C"], opc, atext,
+                                      ia, ka, ie, ke, ij, kj))
+            used.append(c)
+        except AssertionError:
+            continue
+    outs = coqrun.eval_cases(A.VIEWS_PRELUDE, exprs, "c16views", shard=6, timeout=600) if exprs else []
+    bad = []
+    names = ("opcodes text", "asm text", "pc_raw_ast_map keys", "error_map keys", "pc_jump_map keys")
+    for c, o in zip(used, outs):
+        flags = [x.strip(" ()") for x in o.split(",")]
+        for nm, f in zip(names, flags):
+            if f != "true":
+                bad.append((c, nm))
+    return len(used), bad
+
+
 # ------------------------------------------------------------------ main
 
 def run(ctx):
@@ -459,7 +495,7 @@ def run(ctx):
             loops_err = str(e)
     files = ["C16/GenOpcodes.v"] + (["C16/GenAsmInstr.v"] if gen_instr else []) + STATIC + \
             (["C16/GenAsmLoops.v"] if gen_loops else []) + (["C16/InstrSound.v"] if gen_instr else []) + \
-            (["C16/LoopsSound.v"] if gen_loops else []) + ["C16/PropsAsm.v"] + \
+            (["C16/LoopsSound.v"] if gen_loops else []) + ["C16/PropsAsm.v", "C16/PropsViews.v"] + \
             (["C16/PropsInstr.v"] if gen_instr else []) + (["C16/PropsLoops.v"] if gen_loops else [])
     b = ctx.coq_build(files)
     lap("coq build")
@@ -491,6 +527,16 @@ def run(ctx):
     found += output_views(ctx, cc)
     found += c16_instr.search(ctx)
     lap("oracle + output views")
+    n_views, bad_views = (0, [])
+    if (COQ / "C16" / "Views.vo").exists():
+        n_views, bad_views = views_model(ctx, cc)
+        lap(f"printer models vs real outputs ({n_views} assemblies)")
+    if bad_views and not found:
+        c, what = bad_views[0]
+        d = describe(c)
+        d["view"] = what
+        d["all_mismatches"] = [(x["name"], x["cfg"].name, x["which"], w) for x, w in bad_views[:8]]
+        ctx.violation("correspondence-broken", f"Views.v model of the {what} output disagrees with the real output", d)
 
     notwf = [c for c in cc if c.get("fresh") and not c.get("wf")]
     if notwf and not found:
@@ -534,7 +580,7 @@ def run(ctx):
         "oracle_runs": sum(1 for c in cc + sc if "oracle" in c),
         "target_validity_code_bytes": sum(c.get("target_checked", 0) for c in cc),
         "target_validity_by_evm": {e: sum(1 for c in cc if c["evm"] == e and "target_checked" in c) for e in A.EVM_NAMES},
-        "instr_differential_cases": n_instr,
+        "instr_differential_cases": n_instr, "printer_models_compared": n_views,
         "regenerated_loops_compared": (len(fresh) + len(sc)) if ctx.extra.get("loops_ready") else 0,
     })
     if fresh:
